@@ -71,6 +71,24 @@ func baseStep() *pipeline.CommandStep {
 	}
 }
 
+// baseSteps: the rich step, a step with nothing but a command, and a step with an empty
+// command, env names that look like signed-field names, a local plugin with a nested
+// non-string config and a single anonymous matrix dimension.
+func baseSteps() []func() *pipeline.CommandStep {
+	return []func() *pipeline.CommandStep{
+		baseStep,
+		func() *pipeline.CommandStep { return &pipeline.CommandStep{Command: "make"} },
+		func() *pipeline.CommandStep {
+			return &pipeline.CommandStep{
+				Command: "",
+				Env:     map[string]string{"env::P": "x", "p": "lower", "command": "c"},
+				Plugins: pipeline.Plugins{{Source: "./local", Config: map[string]any{"deep": []any{1, true, nil, map[string]any{"k": "v"}}}}},
+				Matrix:  &pipeline.Matrix{Setup: pipeline.MatrixSetup{"": {"a", "b"}}},
+			}
+		},
+	}
+}
+
 func clone(s *pipeline.CommandStep) *pipeline.CommandStep {
 	b, _ := json.Marshal(s)
 	var c pipeline.CommandStep
@@ -90,6 +108,9 @@ func mutations() []mutation {
 	return []mutation{
 		{"identity", false, func(*pipeline.CommandStep, map[string]string, *string, *pipeline.Signature) {}},
 		{"canonical-source-spelling", false, func(s *pipeline.CommandStep, _ map[string]string, _ *string, _ *pipeline.Signature) {
+			if s.Plugins[0].Source != "docker#v1" {
+				panic("not applicable")
+			}
 			s.Plugins[0].Source = "github.com/buildkite-plugins/docker-buildkite-plugin#v1"
 		}},
 		{"empty-config-vs-nil", false, func(s *pipeline.CommandStep, _ map[string]string, _ *string, _ *pipeline.Signature) {
@@ -138,7 +159,10 @@ func mutations() []mutation {
 		{"pipeline-env-empty-valued-changed", true, func(_ *pipeline.CommandStep, env map[string]string, _ *string, _ *pipeline.Signature) {
 			env["EMPTY"] = "x"
 		}},
-		{"shadowed-by-empty-step-value-changed", false, func(_ *pipeline.CommandStep, env map[string]string, _ *string, _ *pipeline.Signature) {
+		{"shadowed-by-empty-step-value-changed", false, func(s *pipeline.CommandStep, env map[string]string, _ *string, _ *pipeline.Signature) {
+			if _, has := s.Env["BLANKED"]; !has {
+				panic("not applicable")
+			}
 			env["BLANKED"] = "other" // the step sets BLANKED to "", which shadows the pipeline's value: not signed
 		}},
 		{"pipeline-env-now-shadowed", true, func(s *pipeline.CommandStep, _ map[string]string, _ *string, _ *pipeline.Signature) {
@@ -167,6 +191,64 @@ func mutations() []mutation {
 			sig.SignedFields = append(append([]string{}, sig.SignedFields...), "env::EXTRA")
 			sort.Strings(sig.SignedFields)
 		}},
+		{"env-created", true, func(s *pipeline.CommandStep, _ map[string]string, _ *string, _ *pipeline.Signature) {
+			if s.Env != nil {
+				panic("not applicable")
+			}
+			s.Env = map[string]string{"NEW": "x"}
+		}},
+		{"env-created-shadowing-signed-variable", true, func(s *pipeline.CommandStep, _ map[string]string, _ *string, _ *pipeline.Signature) {
+			if s.Env != nil {
+				panic("not applicable")
+			}
+			s.Env = map[string]string{"P": "pipeline"}
+		}},
+		{"plugins-created", true, func(s *pipeline.CommandStep, _ map[string]string, _ *string, _ *pipeline.Signature) {
+			s.Plugins = append(s.Plugins, &pipeline.Plugin{Source: "extra#v1"})
+		}},
+		{"matrix-created", true, func(s *pipeline.CommandStep, _ map[string]string, _ *string, _ *pipeline.Signature) {
+			if s.Matrix != nil {
+				panic("not applicable")
+			}
+			s.Matrix = &pipeline.Matrix{Setup: pipeline.MatrixSetup{"": {"a"}}}
+		}},
+		{"matrix-dimension-added", true, func(s *pipeline.CommandStep, _ map[string]string, _ *string, _ *pipeline.Signature) {
+			s.Matrix.Setup["extra"] = []string{"x"}
+		}},
+		{"matrix-value-order", true, func(s *pipeline.CommandStep, _ map[string]string, _ *string, _ *pipeline.Signature) {
+			for _, v := range s.Matrix.Setup {
+				if len(v) >= 2 {
+					v[0], v[1] = v[1], v[0]
+					return
+				}
+			}
+			panic("not applicable")
+		}},
+		{"nested-config-element", true, func(s *pipeline.CommandStep, _ map[string]string, _ *string, _ *pipeline.Signature) {
+			s.Plugins[0].Config.(map[string]any)["deep"].([]any)[3].(map[string]any)["k"] = "w"
+		}},
+		{"nested-config-null-to-false", true, func(s *pipeline.CommandStep, _ map[string]string, _ *string, _ *pipeline.Signature) {
+			s.Plugins[0].Config.(map[string]any)["deep"].([]any)[2] = false
+		}},
+		{"nil-env-vs-empty", false, func(s *pipeline.CommandStep, _ map[string]string, _ *string, _ *pipeline.Signature) {
+			if s.Env != nil {
+				panic("not applicable")
+			}
+			s.Env = map[string]string{}
+		}},
+		{"nil-plugins-vs-empty", false, func(s *pipeline.CommandStep, _ map[string]string, _ *string, _ *pipeline.Signature) {
+			if s.Plugins != nil {
+				panic("not applicable")
+			}
+			s.Plugins = pipeline.Plugins{}
+		}},
+		{"nil-matrix-vs-empty", false, func(s *pipeline.CommandStep, _ map[string]string, _ *string, _ *pipeline.Signature) {
+			if s.Matrix != nil {
+				panic("not applicable")
+			}
+			s.Matrix = &pipeline.Matrix{}
+		}},
+		{"drop-each-mandatory-field", true, nil}, // expanded per field in TestC01
 		{"algorithm-name", true, func(_ *pipeline.CommandStep, _ map[string]string, _ *string, sig *pipeline.Signature) {
 			sig.Algorithm = "HS256"
 		}},
@@ -179,48 +261,85 @@ func TestC01(t *testing.T) {
 	for _, kp := range keyPairs(t) {
 		env := map[string]string{"P": "pipeline", "SHADOW": "pipeline", "Q": "q", "EMPTY": "", "BLANKED": "pipeline"}
 		url := "git@example.com:org/repo.git"
-		step := baseStep()
-		sig, err := signature.Sign(ctx, kp.signer, &signature.CommandStepWithInvariants{CommandStep: *step, RepositoryURL: url}, signature.WithEnv(env))
-		if err != nil {
-			t.Fatalf("%s: sign: %v", kp.name, err)
-		}
-		other := baseStep()
-		other.Command = "rm -rf /"
-		otherSig, _ := signature.Sign(ctx, kp.signer, &signature.CommandStepWithInvariants{CommandStep: *other, RepositoryURL: url}, signature.WithEnv(env))
-		for _, m := range mutations() {
-			s2 := baseStep()
-			env2 := map[string]string{}
-			for k, v := range env {
-				env2[k] = v
+		for bi, baseStep := range baseSteps() {
+			step := baseStep()
+			sig, err := signature.Sign(ctx, kp.signer, &signature.CommandStepWithInvariants{CommandStep: *step, RepositoryURL: url}, signature.WithEnv(env))
+			if err != nil {
+				t.Fatalf("%s: sign: %v", kp.name, err)
 			}
-			url2 := url
-			sig2 := *sig
-			sig2.SignedFields = append([]string{}, sig.SignedFields...)
-			m.apply(s2, env2, &url2, &sig2)
-			err := signature.Verify(ctx, &sig2, kp.verifier, &signature.CommandStepWithInvariants{CommandStep: *s2, RepositoryURL: url2}, signature.WithEnv(env2))
+			other := baseStep()
+			other.Command = "rm -rf /"
+			otherSig, _ := signature.Sign(ctx, kp.signer, &signature.CommandStepWithInvariants{CommandStep: *other, RepositoryURL: url}, signature.WithEnv(env))
+			muts := mutations()
+			for _, field := range []string{"command", "env", "plugins", "matrix", "repository_url"} {
+				field := field
+				muts = append(muts, mutation{"drop-mandatory-" + field, true, func(_ *pipeline.CommandStep, _ map[string]string, _ *string, sig *pipeline.Signature) {
+					var f []string
+					for _, x := range sig.SignedFields {
+						if x != field {
+							f = append(f, x)
+						}
+					}
+					sig.SignedFields = f
+				}})
+			}
+			for _, m := range muts {
+				if m.apply == nil {
+					continue
+				}
+				s2 := baseStep()
+				env2 := map[string]string{}
+				for k, v := range env {
+					env2[k] = v
+				}
+				url2 := url
+				sig2 := *sig
+				sig2.SignedFields = append([]string{}, sig.SignedFields...)
+				snapshot := func() string {
+					b, _ := json.Marshal([]any{s2, env2, url2, sig2})
+					return string(b) + fmt.Sprintf("|%v|%v|%v", s2.Env == nil, s2.Plugins == nil, s2.Matrix == nil)
+				}
+				before := snapshot()
+				applicable := func() (ok bool) {
+					defer func() {
+						if recover() != nil {
+							ok = false
+						}
+					}()
+					m.apply(s2, env2, &url2, &sig2)
+					return true
+				}()
+				if !applicable || (m.reject && snapshot() == before) {
+					continue // the mutation does not apply to this base step
+				}
+				err := signature.Verify(ctx, &sig2, kp.verifier, &signature.CommandStepWithInvariants{CommandStep: *s2, RepositoryURL: url2}, signature.WithEnv(env2))
+				cases++
+				if bi > 0 {
+					m.name = fmt.Sprintf("base %d: %s", bi, m.name)
+				}
+				if m.reject && err == nil {
+					failures++
+					t.Errorf("%s: mutation %q verified", kp.name, m.name)
+				}
+				if !m.reject && err != nil {
+					failures++
+					t.Errorf("%s: harmless change %q rejected: %v", kp.name, m.name, err)
+				}
+			}
+			// spliced signature value from another step
+			spliced := *sig
+			spliced.Value = otherSig.Value
 			cases++
-			if m.reject && err == nil {
+			if signature.Verify(ctx, &spliced, kp.verifier, &signature.CommandStepWithInvariants{CommandStep: *baseStep(), RepositoryURL: url}, signature.WithEnv(env)) == nil {
 				failures++
-				t.Errorf("%s: mutation %q verified", kp.name, m.name)
+				t.Errorf("%s: spliced signature value verified", kp.name)
 			}
-			if !m.reject && err != nil {
+			// another key
+			cases++
+			if signature.Verify(ctx, sig, kp.otherVer, &signature.CommandStepWithInvariants{CommandStep: *baseStep(), RepositoryURL: url}, signature.WithEnv(env)) == nil {
 				failures++
-				t.Errorf("%s: harmless change %q rejected: %v", kp.name, m.name, err)
+				t.Errorf("%s: verified under a different key", kp.name)
 			}
-		}
-		// spliced signature value from another step
-		spliced := *sig
-		spliced.Value = otherSig.Value
-		cases++
-		if signature.Verify(ctx, &spliced, kp.verifier, &signature.CommandStepWithInvariants{CommandStep: *baseStep(), RepositoryURL: url}, signature.WithEnv(env)) == nil {
-			failures++
-			t.Errorf("%s: spliced signature value verified", kp.name)
-		}
-		// another key
-		cases++
-		if signature.Verify(ctx, sig, kp.otherVer, &signature.CommandStepWithInvariants{CommandStep: *baseStep(), RepositoryURL: url}, signature.WithEnv(env)) == nil {
-			failures++
-			t.Errorf("%s: verified under a different key", kp.name)
 		}
 	}
 	// a signature that genuinely covers only some mandatory fields (made by a signer for a
